@@ -244,7 +244,7 @@ PROPS = {
         "evaluations": ["pairs", "ij.to_calls", "ij.from_calls", "ij.extreme_calls"],
         "rule": "cases: ordered (origin, cell) pairs; (origin, cell) and (origin, i, j) IJ conversions. Evidence counts pairs; the distinct set holds origins (whole-resolution sweeps: each origin against every cell of the "
                 "resolution; ball sweeps: each origin against its BFS ball), non-trivial = every origin; distinct by origin (and radius).",
-        "require": {"pairs": {"quick": 10000000, "thorough": 100000000}, "pairs.success": 1000000, "pairs.failed": 100000, "origins.ball_with_pentagon": 500, "ij.roundtrips": 100000, "ij.roundtrips_rev": 100000,
+        "require": {"pairs": {"quick": 10000000, "thorough": 100000000}, "pairs.success": 1000000, "pairs.failed": 100000, "pairs.under_directed_rounding": 20000, "origins.ball_with_pentagon": 500, "ij.roundtrips": 100000, "ij.roundtrips_rev": 100000,
                     "ij.neighbour_steps": 100000, "ij.extreme_rejected": 100, "mismatch.calls": 100},
         "exhaustive": True,
         "exhaustive_note": "all ordered pairs at res 0-1 (and res 2 in the thorough tier); balls elsewhere",
@@ -331,12 +331,12 @@ PROPS = {
         "level_text": "Every successful gridPathCells output is checked cell by cell: announced size = gridDistance+1 = BFS depth+1, first/last cells, every step a geometric neighbour of its predecessor, all cells valid; "
                       "mandatory success for a=b and neighbours; exact-size output buffers under ASan so that any write beyond the announced size (also on failure) is seen. Workload: all ordered pairs up to distance 40 "
                       "at res 0-1 and res 2 (1/16 of origins quick, all thorough), BFS balls of radius 8 (quick) / 20 (thorough) around origins within 1 / 3 steps of every pentagon at res 3-15, seam and random origins, and "
-                      "long paths (100-2000 cells) at res 8-15 in straight, |di|=|dj| and half-integer tie directions.",
+                      "long paths (100-2000 cells) at res 8-15 in straight, |di|=|dj| and half-integer tie directions. Also: origins in the belt of 2-18 (res 3), 4-45 (res 4), thorough 10-120 (res 5) steps around each of the twelve pentagons with sampled targets up to 30/75/200 steps away (paths that graze a pentagon); and a sample of all strata with the API calls made under FE_UPWARD, FE_DOWNWARD and FE_TOWARDZERO (the oracle stays in round-to-nearest).",
         "level_note": "Trusted base: geometric adjacency and BFS; long paths have no BFS oracle (contiguity + announced length + gridDistance consistency only; gridDistance itself is C09's subject).",
         "technique": "runtime monitoring: per-step adjacency monitor on geometry-derived neighbours plus BFS reference distance, exact-size buffers under ASan/UBSan",
         "evaluations": ["pairs"],
         "rule": "a case is an ordered (start, end) pair run through gridPathCellsSize, gridDistance and gridPathCells. Non-trivial = successful path of more than two cells; distinct by hash of the pair.",
-        "require": {"pairs": 1000000, "paths.success": 300000, "paths.failed": 1000, "long.cases": 50, "origins.ball": 300},
+        "require": {"pairs": 1000000, "paths.success": 300000, "paths.failed": 1000, "long.cases": 50, "origins.ball": 300, "origins.pentagon_belt": 500, "pairs.under_directed_rounding": 20000},
         "assumptions": ["geometric adjacency is the neighbour relation of the statement (validated by C08)"],
     },
     "C15": {
